@@ -6,6 +6,11 @@ def carries_session_id_0(result, session_id):
     return d == session_id
 
 
+def carries_auth_application_id_1(result, auth_application_id):
+    d = result._avps[1]._data
+    return d == auth_application_id
+
+
 def carries_origin_host_2(result, origin_host):
     d = result._avps[2]._data
     return d == origin_host.encode('utf-8')
@@ -49,6 +54,11 @@ def carries_route_record_10(result, route_record):
 def carries_session_id_0(result, session_id):
     d = result._avps[0]._data
     return d == session_id
+
+
+def carries_auth_application_id_1(result, auth_application_id):
+    d = result._avps[1]._data
+    return d == auth_application_id
 
 
 def carries_origin_host_2(result, origin_host):
@@ -141,6 +151,11 @@ def carries_session_id_0(result, session_id):
     return d == session_id
 
 
+def carries_auth_application_id_1(result, auth_application_id):
+    d = result._avps[1]._data
+    return d == auth_application_id
+
+
 def carries_origin_host_2(result, origin_host):
     d = result._avps[2]._data
     return d == origin_host.encode('utf-8')
@@ -186,6 +201,11 @@ def carries_origin_realm_3(result, origin_realm):
     return d == origin_realm.encode('utf-8')
 
 
+def carries_auth_application_id_4(result, auth_application_id):
+    d = result._avps[4]._data
+    return d == auth_application_id
+
+
 def carries_cc_request_number_6(result, cc_request_number):
     d = result._avps[6]._data
     return d == be(cc_request_number, 4)
@@ -221,6 +241,11 @@ def carries_destination_realm_3(result, destination_realm):
     return d == destination_realm.encode('utf-8')
 
 
+def carries_auth_application_id_4(result, auth_application_id):
+    d = result._avps[4]._data
+    return d == auth_application_id
+
+
 def carries_cc_request_number_6(result, cc_request_number):
     d = result._avps[6]._data
     return d == be(cc_request_number, 4)
@@ -254,6 +279,11 @@ def carries_route_record_11(result, route_record):
 def carries_session_id_0(result, session_id):
     d = result._avps[0]._data
     return d == session_id
+
+
+def carries_auth_application_id_1(result, auth_application_id):
+    d = result._avps[1]._data
+    return d == auth_application_id
 
 
 def carries_origin_host_2(result, origin_host):
@@ -294,6 +324,11 @@ def carries_redirect_max_cache_time_8(result, redirect_max_cache_time):
 def carries_session_id_0(result, session_id):
     d = result._avps[0]._data
     return d == session_id
+
+
+def carries_auth_application_id_1(result, auth_application_id):
+    d = result._avps[1]._data
+    return d == auth_application_id
 
 
 def carries_origin_host_2(result, origin_host):
@@ -411,6 +446,11 @@ def carries_destination_host_4(result, destination_host):
     return d == destination_host.encode('utf-8')
 
 
+def carries_auth_application_id_5(result, auth_application_id):
+    d = result._avps[5]._data
+    return d == auth_application_id
+
+
 def carries_origin_state_id_7(result, origin_state_id):
     d = result._avps[7]._data
     return d == be(origin_state_id, 4)
@@ -491,6 +531,11 @@ def carries_destination_host_4(result, destination_host):
     return d == destination_host.encode('utf-8')
 
 
+def carries_auth_application_id_5(result, auth_application_id):
+    d = result._avps[5]._data
+    return d == auth_application_id
+
+
 def carries_origin_state_id_7(result, origin_state_id):
     d = result._avps[7]._data
     return d == be(origin_state_id, 4)
@@ -569,6 +614,11 @@ def carries_origin_realm_2(result, origin_realm):
 def carries_destination_realm_3(result, destination_realm):
     d = result._avps[3]._data
     return d == destination_realm.encode('utf-8')
+
+
+def carries_auth_application_id_4(result, auth_application_id):
+    d = result._avps[4]._data
+    return d == auth_application_id
 
 
 def carries_destination_host_6(result, destination_host):
@@ -986,6 +1036,11 @@ def carries_session_id_0(result, session_id):
     return d == session_id
 
 
+def carries_auth_application_id_1(result, auth_application_id):
+    d = result._avps[1]._data
+    return d == auth_application_id
+
+
 def carries_result_code_3(result, result_code):
     d = result._avps[3]._data
     return d == be(result_code, 4)
@@ -1009,6 +1064,11 @@ def carries_session_timeout_6(result, session_timeout):
 def carries_session_id_0(result, session_id):
     d = result._avps[0]._data
     return d == session_id
+
+
+def carries_auth_application_id_1(result, auth_application_id):
+    d = result._avps[1]._data
+    return d == auth_application_id
 
 
 def carries_origin_host_2(result, origin_host):
@@ -1086,6 +1146,11 @@ def carries_destination_host_4(result, destination_host):
     return d == destination_host.encode('utf-8')
 
 
+def carries_auth_application_id_5(result, auth_application_id):
+    d = result._avps[5]._data
+    return d == auth_application_id
+
+
 def carries_user_name_6(result, user_name):
     d = result._avps[6]._data
     return d == user_name.encode('utf-8')
@@ -1094,6 +1159,11 @@ def carries_user_name_6(result, user_name):
 def carries_session_id_0(result, session_id):
     d = result._avps[0]._data
     return d == session_id
+
+
+def carries_auth_application_id_1(result, auth_application_id):
+    d = result._avps[1]._data
+    return d == auth_application_id
 
 
 def carries_result_code_3(result, result_code):
@@ -1451,6 +1521,11 @@ def carries_supported_vendor_id_8(result, supported_vendor_id):
     return d == be(supported_vendor_id, 4)
 
 
+def carries_auth_application_id_9(result, auth_application_id):
+    d = result._avps[9]._data
+    return d == auth_application_id
+
+
 def carries_inband_security_id_10(result, inband_security_id):
     d = result._avps[10]._data
     return d == be(inband_security_id, 4)
@@ -1734,6 +1809,11 @@ def carries_origin_realm_2(result, origin_realm):
 def carries_destination_realm_3(result, destination_realm):
     d = result._avps[3]._data
     return d == destination_realm.encode('utf-8')
+
+
+def carries_auth_application_id_4(result, auth_application_id):
+    d = result._avps[4]._data
+    return d == auth_application_id
 
 
 def carries_user_name_6(result, user_name):
